@@ -9,7 +9,8 @@ from typing import Generic, Any
 
 from pymap.concurrent import Event
 from pymap.config import IMAPConfig
-from pymap.exceptions import MailboxNotFound, MailboxConflict, MailboxReadOnly
+from pymap.exceptions import MailboxNotFound, MailboxConflict, \
+    MailboxReadOnly, NotSupportedError
 from pymap.flags import FlagOp, SessionFlags, PermanentFlags
 from pymap.interfaces.filter import FilterSetInterface
 from pymap.interfaces.message import MessageT
@@ -237,11 +238,16 @@ class BaseSession(SessionInterface, Generic[MessageT]):
             -> tuple[Iterable[tuple[int, MessageT]],
                      SelectedMailbox]:
         mbx = await self._get_selected(selected)
-        req = FetchRequirement.reduce(key.requirement for key in keys)
         ret: list[tuple[int, MessageT]] = []
         params = SearchParams(selected,
                               disabled=self.config.disable_search_keys)
-        search = SearchCriteriaSet(keys, params)
+        try:
+            req = FetchRequirement.reduce(key.requirement for key in keys)
+            search = SearchCriteriaSet(keys, params)
+        except RecursionError as exc:
+            # the keys were parsed, but building the criteria needs more
+            # stack frames per level of OR and NOT than parsing them did
+            raise NotSupportedError('SEARCH keys nested too deeply.') from exc
         async for seq, msg in mbx.find(search.sequence_set, selected):
             msg_content = await msg.load_content(req)
             if search.matches(seq, msg, msg_content):
